@@ -452,3 +452,80 @@ def run_all(tier):
             print(out.rstrip())
             rc = max(rc, code)
     return rc
+
+
+# ---------------------------------------------------------------- small structural helpers used by several rule modules
+
+def string_dispatch(stmts, var):
+    """if/elif chains keyed on `var == 'lit'` (or `var == 'a' or var == 'b'`) -> {literal: body}, plus '__else__'."""
+    out = {}
+
+    def lits(test):
+        if isinstance(test, ast.Compare) and len(test.ops) == 1 and isinstance(test.ops[0], ast.Eq) and norm(test.left) == var \
+                and isinstance(test.comparators[0], ast.Constant):
+            return [test.comparators[0].value]
+        if isinstance(test, ast.BoolOp) and isinstance(test.op, ast.Or):
+            r = []
+            for v in test.values:
+                x = lits(v)
+                if x is None:
+                    return None
+                r.extend(x)
+            return r
+        return None
+    for s in stmts:
+        if isinstance(s, ast.If):
+            cur = s
+            while True:
+                ls = lits(cur.test)
+                if ls is None:
+                    break
+                for l in ls:
+                    out.setdefault(l, cur.body)
+                if len(cur.orelse) == 1 and isinstance(cur.orelse[0], ast.If):
+                    cur = cur.orelse[0]
+                    continue
+                if cur.orelse:
+                    out.setdefault('__else__', cur.orelse)
+                break
+    return out
+
+
+def cmp_canon(c):
+    """Compare node -> (greater_text, op, lesser_text) with op in {'>', '>=', '==', '!='} or None"""
+    if not (isinstance(c, ast.Compare) and len(c.ops) == 1):
+        return None
+    a, b, op = norm(c.left), norm(c.comparators[0]), c.ops[0]
+    if isinstance(op, ast.Gt):
+        return (a, '>', b)
+    if isinstance(op, ast.GtE):
+        return (a, '>=', b)
+    if isinstance(op, ast.Lt):
+        return (b, '>', a)
+    if isinstance(op, ast.LtE):
+        return (b, '>=', a)
+    if isinstance(op, ast.Eq):
+        return tuple(sorted([a, b])[:1]) + ('==',) + tuple(sorted([a, b])[1:])
+    if isinstance(op, ast.NotEq):
+        return tuple(sorted([a, b])[:1]) + ('!=',) + tuple(sorted([a, b])[1:])
+    return None
+
+
+def assigns_to(fn, name):
+    """Assign/AugAssign statements in fn (not nested defs) whose target text is `name`"""
+    out = []
+    for n in ast.walk(fn):
+        if isinstance(n, ast.Assign) and any(norm(t) == name for t in n.targets):
+            out.append(n)
+        elif isinstance(n, ast.AugAssign) and norm(n.target) == name:
+            out.append(n)
+        elif isinstance(n, ast.Assign):
+            for t in n.targets:
+                if isinstance(t, (ast.Tuple, ast.List)) and any(norm(e) == name for e in t.elts):
+                    out.append(n)
+    out.sort(key=lambda s: s.lineno)
+    return out
+
+
+def precedes(a, b):
+    return (a.lineno, a.col_offset) < (b.lineno, b.col_offset)
